@@ -134,6 +134,7 @@ class Interp:
         self.models = models
         self.builtins = models.builtins(self)
         self.functions_seen = set()       # (relpath, qualname) executed from source on this path
+        self.spec_names = {}              # spec functions / ghost objects named in contracts (harness.spec)
         self.unroll_limit = 64
 
     # ================================================================ modules / names
@@ -179,7 +180,17 @@ class Interp:
                 return v
         if name in self.builtins:
             return self.builtins[name]
+        if name in self.spec_names:
+            return self.spec_names[name]
         raise Unsupported('name %s' % name)
+
+    VOCAB = ('implies', 'iff', 'truthy', 'eq', 'gt', 'ge', 'Pow', 'Sqrt', 'Log', 'forall', 'exists', 'is_none',
+             'same', 'seq_eq', 'isinf', 'inf')
+
+    def contract_vocab(self):
+        v = {k: self.builtins[k] for k in self.VOCAB}
+        v.update(self.spec_names)
+        return v
 
     def mangle(self, name, cls):
         if cls is not None and name.startswith('__') and not name.endswith('__'):
@@ -292,7 +303,9 @@ class Interp:
                 rv = r.value
             for label, expr in self.exit_checks.get(key, ()):
                 tree = ast.parse(expr.strip(), mode='eval').body
-                e2 = Env({'result': rv}, env, env.module, env.cls, env.func)
+                v2 = self.contract_vocab()
+                v2['result'] = rv
+                e2 = Env(v2, env, env.module, env.cls, env.func)
                 self.st.check('%s/exit: %s' % (c.qualname, label), self.truth_term(self.eval(tree, e2)))
             return rv
         finally:
@@ -649,7 +662,8 @@ class Interp:
             dec_ast = ast.parse(spec.decreases.strip(), mode='eval').body
 
         def inv_env(i):
-            v = dict(entry_env)
+            v = self.contract_vocab()      # contract vocabulary shadows module-level names of the analysed code
+            v.update(entry_env)
             v['_i_'] = i
             return Env(v, env, env.module, env.cls, env.func)
 
@@ -669,7 +683,12 @@ class Interp:
                 fld = self.mangle(mt.attr, env.cls)
                 refs.add((o, fld))
                 cur = self.getattr(o, fld)
-                self.setattr_raw(o, fld, self.havoc_like(cur, fld))
+                if isinstance(cur, Ref) and cur.kind in ('slist', 'rows', 'clist'):
+                    # a field holding a list: the loop may change its contents (and re-bind the field to it)
+                    refs.add(cur)
+                    self.havoc_cell(cur)
+                else:
+                    self.setattr_raw(o, fld, self.havoc_like(cur, fld))
             else:
                 r = self.eval(mt, env)
                 if not isinstance(r, Ref):
@@ -707,6 +726,20 @@ class Interp:
         d0 = None
         if dec_ast is not None:
             d0 = self.eval(dec_ast, env)
+        # references held at the loop head: the havoc above kept them (only contents were havocked), which is
+        # right only if the body does not re-bind them to other cells (aliasing would break the separation the
+        # invariants rely on)
+        held = {}
+        for item in refs:
+            if isinstance(item, tuple) and len(item) == 2 and isinstance(item[1], str):
+                cur = st.heap[item[0]].get(item[1])
+                if isinstance(cur, Ref):
+                    held[('field', item[0], item[1])] = cur
+        tnames = set(M._target_names(s.target)) if isinstance(s, ast.For) else set()
+        for nme in sorted(assigned - tnames):
+            e = self._find_env(nme, env)
+            if e is not None and isinstance(e.vars[nme], Ref):
+                held[('name', nme)] = e.vars[nme]
         st.frames.append({'stamp': stamp, 'refs': refs, 'name': name})
         try:
             try:
@@ -717,6 +750,17 @@ class Interp:
                 return            # state after break continues after the loop
         finally:
             st.frames.pop()
+        for key, ref0 in held.items():
+            if key[0] == 'field':
+                now = st.heap[key[1]].get(key[2])
+                what = 'field %s' % key[2]
+            else:
+                e = self._find_env(key[1], env)
+                now = e.vars.get(key[1]) if e is not None else None
+                what = 'variable %s' % key[1]
+            if now is not ref0:
+                raise Unsupported('%s is re-bound to another object inside loop %s: the invariant frame (separate '
+                                  'cells) cannot be carried to the next iteration' % (what, name))
         inext = SV(i.t + 1, 'int')
         for text, tree in inv_asts:
             c = self.truth_term(self.eval(tree, inv_env(inext)))
@@ -1246,7 +1290,7 @@ class _EntryLift(ast.NodeTransformer):
 
     def visit_Call(self, node):
         if isinstance(node.func, ast.Name) and node.func.id == 'entry' and len(node.args) == 1:
-            name = '__entry_%s_%d' % (self.prefix, self.k)
+            name = 'entry__%s_%d' % (self.prefix, self.k)
             self.k += 1
             v = self.interp.eval(node.args[0], self.env)
             v = self.interp.models.snapshot(self.interp, v)
@@ -1319,11 +1363,16 @@ _PURE_NODES = (ast.Compare, ast.BoolOp, ast.UnaryOp, ast.BinOp, ast.Name, ast.Co
                ast.Call, ast.Tuple, ast.IfExp)
 
 
+PURE_SPEC_CALLS = set()      # names of side-effect-free spec functions registered by harnesses (harness.spec)
+
+
 def _is_pure_bool_expr(n):
     for x in ast.walk(n):
         if not isinstance(x, _PURE_NODES):
             return False
         if isinstance(x, ast.Call):
+            if isinstance(x.func, ast.Name) and x.func.id in PURE_SPEC_CALLS:
+                continue
             if not (isinstance(x.func, ast.Name) and x.func.id in ('abs', 'len', 'max', 'min', 'float', 'int', 'bool',
                                                                    'isinstance', 'hasattr', 'implies', 'iff', 'eq',
                                                                    'truthy', 'Pow', 'Sqrt', 'forall', 'exists', 'seq_eq',
